@@ -101,14 +101,14 @@ func primer(input string, m, n int) fm {
 					a[i][j] = 1.0 / float64(1+i+j)
 				}
 			case "sym":
-				a[i][j] = float64((i*j+2*(i+j))%5) - 1.5
+				a[i][j] = float64((i*j+2*(i+j))%5)/4 - 0.5
 				if i == j {
-					a[i][j] += 3
+					a[i][j] = 3 + 1.75*float64(i) // distinct diagonal: the unsymmetric QR iteration stalls on equal ones
 				}
 			default:
-				a[i][j] = float64((3*i+5*j+1)%7) - 2.5
+				a[i][j] = float64((3*i+5*j+1)%7)/4 - 0.75
 				if i == j {
-					a[i][j] += 4
+					a[i][j] = 4 + 1.75*float64(i)
 				}
 			}
 		}
